@@ -149,8 +149,37 @@ fn starts_value(t: &[u8], pos: usize) -> bool {
     true
 }
 
+/// Ordinal of the structural byte at `p` (None if `p` is not one).
+fn ordinal_of(t: &[u8], p: usize) -> Option<usize> {
+    let mut in_str = false;
+    let mut esc = false;
+    let mut count = 0usize;
+    let mut i = 0;
+    while i < t.len() {
+        let c = t[i];
+        if in_str {
+            if esc {
+                esc = false;
+            } else if c == b'\\' {
+                esc = true;
+            } else if c == b'"' {
+                in_str = false;
+            }
+        } else if c == b'"' {
+            in_str = true;
+        } else if c == b'{' || c == b'}' || c == b'[' || c == b']' || c == b',' || c == b':' {
+            if i == p {
+                return Some(count);
+            }
+            count += 1;
+        }
+        i += 1;
+    }
+    None
+}
+
 macro_rules! valid_doc {
-    ($name:ident, $n:expr) => {
+    ($name:ident, $grp:ident, $n:expr) => {
         #[kani::proof]
         #[kani::stub(alloc::vec::Vec::push, crate::stubs::push_no_grow)]
         #[kani::unwind(10)]
@@ -162,52 +191,49 @@ macro_rules! valid_doc {
             let t: [u8; $n] = kani::any();
             kani::assume(recognise::<4>(&t, 128) == Verdict::Accept);
             let idx = SimpleJsonIndex::build(&t);
-            let k: usize = kani::any();
-            kani::assume(k <= $n + 1);
-            let (want_pos, count) = structurals(&t, k);
-            // lists exactly the structural bytes, in order
-            assert!(idx.structural_count() == count);
-            assert!(idx.structural_pos(k) == want_pos);
-            // maps each back to its ordinal; non-structural positions map to None
             let p: usize = kani::any();
             kani::assume(p <= $n + 1);
-            let is_structural_p = {
-                let mut j = 0;
-                let mut hit = None;
-                while j < $n + 2 {
-                    if let (Some(q), _) = structurals(&t, j) {
-                        if q == p {
-                            hit = Some(j);
-                        }
-                    }
-                    j += 1;
-                }
-                hit
-            };
-            assert!(idx.structural_index(p) == is_structural_p);
-            // matching close of every container, None elsewhere
-            let fc = idx.find_close(&t, p);
-            if p < $n && (t[p] == b'{' || t[p] == b'[') && outside_strings(&t, p) {
-                assert!(fc == matching_close(&t, p));
-                assert!(fc.is_some());
-            }
-            // skip each value to the byte just after it
-            if p < $n && starts_value(&t, p) {
-                assert!(idx.skip_value(&t, p) == Some(value_end(&t, p)));
-            }
-            kani::cover!(count >= 4 && k == 3);
-            kani::cover!(p > 0 && p < $n && t[p] == b'[' && outside_strings(&t, p));
-            kani::cover!(p > 0 && p < $n && t[p] == b'"' && starts_value(&t, p));
+            valid_doc!(@$grp, idx, t, p, $n);
             core::mem::forget(idx);
         }
     };
+    // lists exactly the structural bytes, in order, and maps each back to its ordinal
+    (@structural, $idx:ident, $t:ident, $p:ident, $n:expr) => {
+        let (want_pos, count) = structurals(&$t, $p);
+        assert!($idx.structural_count() == count);
+        assert!($idx.structural_pos($p) == want_pos);
+        assert!($idx.structural_index($p) == ordinal_of(&$t, $p));
+        kani::cover!($n < 4 || (count >= 3 && $p == 2));
+        kani::cover!(ordinal_of(&$t, $p) == Some(1));
+    };
+    // matching close of every container
+    (@close, $idx:ident, $t:ident, $p:ident, $n:expr) => {
+        let fc = $idx.find_close(&$t, $p);
+        if $p < $n && ($t[$p] == b'{' || $t[$p] == b'[') && outside_strings(&$t, $p) {
+            assert!(fc == matching_close(&$t, $p));
+            assert!(fc.is_some());
+        }
+        kani::cover!($p > 0 && $p < $n && $t[$p] == b'[' && outside_strings(&$t, $p));
+    };
+    // skip each value to the byte just after it
+    (@skip, $idx:ident, $t:ident, $p:ident, $n:expr) => {
+        if $p < $n && starts_value(&$t, $p) {
+            assert!($idx.skip_value(&$t, $p) == Some(value_end(&$t, $p)));
+        }
+        kani::cover!($p > 0 && $p < $n && $t[$p] == b'"' && starts_value(&$t, $p));
+        kani::cover!($p > 0 && $p < $n && $t[$p] == b'[' && starts_value(&$t, $p));
+    };
 }
-valid_doc!(c32_valid_len2, 2);
-valid_doc!(c32_valid_len4, 4);
-valid_doc!(c32_valid_len5, 5);
-valid_doc!(c32_valid_len6, 6);
-valid_doc!(c32_valid_len7, 7);
-valid_doc!(c32_valid_len8, 8);
+valid_doc!(c32_structural_len2, structural, 2);
+valid_doc!(c32_structural_len4, structural, 4);
+valid_doc!(c32_structural_len6, structural, 6);
+valid_doc!(c32_structural_len8, structural, 8);
+valid_doc!(c32_close_len4, close, 4);
+valid_doc!(c32_close_len6, close, 6);
+valid_doc!(c32_close_len8, close, 8);
+valid_doc!(c32_skip_len4, skip, 4);
+valid_doc!(c32_skip_len6, skip, 6);
+valid_doc!(c32_skip_len8, skip, 8);
 
 #[kani::proof]
 #[kani::stub(alloc::vec::Vec::push, crate::stubs::push_no_grow)]
